@@ -360,7 +360,7 @@ func runC13(c c13Case, o *vfutil.Obs) *vfutil.Failure {
 }
 
 func TestVerifC13a(t *testing.T) {
-	vfutil.Run(t, vfutil.Spec[c13Case]{ID: "C13", Gen: genC13, Run: runC13})
+	vfutil.Run(t, vfutil.Spec[c13Case]{ID: "C13", Gen: genC13, Run: runC13, Journal: true})
 }
 
 // ---- C13b: concurrent group subscribes (built with -race)
@@ -538,5 +538,5 @@ func runC13b(c c13bCase, o *vfutil.Obs) *vfutil.Failure {
 }
 
 func TestVerifC13b(t *testing.T) {
-	vfutil.Run(t, vfutil.Spec[c13bCase]{ID: "C13", Gen: genC13b, Run: runC13b})
+	vfutil.Run(t, vfutil.Spec[c13bCase]{ID: "C13", Gen: genC13b, Run: runC13b, Journal: true})
 }
